@@ -222,6 +222,10 @@ def build_crystal(spec):
         if np.linalg.det(Q) < 0:
             Q[:, 0] *= -1
         L = L @ Q.T
+    if spec.get("noise"):
+        # sub-tolerance positional noise (relaxed structures, 1/3 typed as 0.3333333): |noise| << symprec
+        rng = rng_from(spec["key"], 503)
+        pos = pos + rng.uniform(-1, 1, size=pos.shape) * float(spec["noise"])
     masses = None
     if spec.get("masses"):
         rng = rng_from(spec["key"], 502)
@@ -238,7 +242,7 @@ keys = st.integers(0, 2**32 - 1)
 
 
 @st.composite
-def crystal_specs(draw, max_unit=12, kinds=("hall", "proto", "centred", "p1"), masses=True, rot=True):
+def crystal_specs(draw, max_unit=12, kinds=("hall", "proto", "centred", "p1"), masses=True, rot=True, noise=False):
     kind = draw(st.sampled_from(kinds))
     spec = {"kind": kind, "key": draw(keys)}
     if kind == "hall":
@@ -258,6 +262,8 @@ def crystal_specs(draw, max_unit=12, kinds=("hall", "proto", "centred", "p1"), m
         spec["rot"] = draw(st.booleans())
     if masses:
         spec["masses"] = draw(st.booleans())
+    if noise:
+        spec["noise"] = draw(st.sampled_from([0.0, 0.0, 1e-8, 2e-7]))
     return spec
 
 
@@ -300,8 +306,8 @@ def supercell_matrices(draw, max_det=8, maxent=2, allow_nondiag=True):
 
 @st.composite
 def crystal_with_supercell(draw, max_atoms=48, max_unit=12, max_det=8, kinds=("hall", "proto", "centred", "p1"),
-                           masses=True, allow_nondiag=True):
-    cs = draw(crystal_specs(max_unit=max_unit, kinds=kinds, masses=masses))
+                           masses=True, allow_nondiag=True, noise=False):
+    cs = draw(crystal_specs(max_unit=max_unit, kinds=kinds, masses=masses, noise=noise))
     c = build_crystal(cs)
     n = len(c["cell"]) if c is not None else 1
     room = max(1, min(max_det, max_atoms // n))
